@@ -226,7 +226,15 @@ def run(ctx):
             if obs["status"] != "paused":
                 break
             if nested:
-                break      # nested: only the pause identity is claimed
+                # nested: the pause identity is decided by the model; answering under the advertised key is tried on the implementation
+                key = obs["pause"]["key"]
+                again = pdl.run_real(g, {**rc, "inputs": {**vals, key: 71}}, rank=None)
+                dist["nested_resume_attempts"] = dist.get("nested_resume_attempts", 0) + 1
+                if again["status"] == "paused" and again["pause"]["node"] == obs["pause"]["node"]:
+                    ctx.violation("oracle", f"the interrupt {obs['pause']['node']} inside a nested graph cannot be answered: re-running with the response "
+                                  f"supplied under pause.response_key {key!r} pauses at the same interrupt again",
+                                  case={"family": "nested_resume", "graph": g, "inputs": dict(vals), "key": key, "node": obs["pause"]["node"]})
+                break
             key = obs["pause"]["key"]
             r = rng.choice([70 + step, 0, "", []])        # falsy answers are answers too
             answers[obs["pause"]["node"]] = r
